@@ -196,4 +196,30 @@ theorem py_dec (q : Nat) (tbl : List (Nat × Text)) (hm : PyMode q tbl) (s : Tex
     exact hrun
   · exact hrun
 
+theorem py_needs_false (c : Nat) (h : needsCharPy c = false) : pyEscChar Gen.Lit.pyDouble c = [c] := by
+  have hm : PyMode 34 Gen.Lit.pyDouble := Or.inr ⟨rfl, rfl⟩
+  rcases py_class c 34 with rfl | rfl | rfl | rfl | rfl | rfl | rfl | rfl | rfl | rfl | h' | h'
+  all_goals try (exact absurd h (by decide))
+  · have : ¬ c = 7 := by omega
+    have : ¬ c = 8 := by omega
+    have : ¬ c = 12 := by omega
+    have : ¬ c = 10 := by omega
+    have : ¬ c = 13 := by omega
+    have : ¬ c = 9 := by omega
+    have : ¬ c = 11 := by omega
+    have : ¬ c = 34 := by omega
+    have : ¬ c = 92 := by omega
+    have : ¬ c = 0 := by omega
+    simp [needsCharPy, *] at h
+  · exact pyEsc_raw 34 _ hm c h'
+
+theorem py_needs_true (c : Nat) (h : needsCharPy c = true) : 2 ≤ (pyEscChar Gen.Lit.pyDouble c).length := by
+  have hm : PyMode 34 Gen.Lit.pyDouble := Or.inr ⟨rfl, rfl⟩
+  rcases py_class c 34 with rfl | rfl | rfl | rfl | rfl | rfl | rfl | rfl | rfl | rfl | h' | h'
+  all_goals try decide
+  · rw [pyEsc_sur 34 _ hm c h']; simp
+  · have := h'.2.2.2.2.2.2.2.2.2.2
+    simp [needsCharPy, h'.1, h'.2.1, h'.2.2.1, h'.2.2.2.1, h'.2.2.2.2.1, h'.2.2.2.2.2.1, h'.2.2.2.2.2.2.1,
+      h'.2.2.2.2.2.2.2.1, h'.2.2.2.2.2.2.2.2.1, h'.2.2.2.2.2.2.2.2.2.1, this] at h
+
 end AasVerif.Lit
